@@ -147,6 +147,7 @@ type rqQueue struct {
 	forgets []string
 	unlocks []string
 	entHook func() map[string]container.QueueEnt
+	now     map[string]container.QueueEnt // if set: what Get answers (the queue as it is when a goroutine runs)
 }
 
 func (q *rqQueue) Entries() (map[string]container.QueueEnt, time.Time) {
@@ -186,6 +187,10 @@ func (q *rqQueue) Forget(uuid string) {
 	q.forgets = append(q.forgets, gN(rqUUIDNum(uuid)))
 }
 func (q *rqQueue) Get(uuid string) (arvados.Container, bool) {
+	if q.now != nil {
+		e, ok := q.now[uuid]
+		return e.Container, ok
+	}
 	e, ok := q.ents[uuid]
 	return e.Container, ok
 }
